@@ -221,9 +221,9 @@ pub fn panic_class(info: &PanicInfo) -> String {
             msg.push(c);
         }
     }
-    // the tail of an unwrap() message is the offending value: not part of the class
-    let msg: String = match msg.find(|c| c == '{' || c == '[') {
-        Some(p) if msg.contains("unwrap()") => msg[..p].to_string(),
+    // the tail of an unwrap()/expect() message is the offending value: not part of the class
+    let msg: String = match msg.find("value:") {
+        Some(p) if msg.contains("unwrap()") => msg[..p + 6].to_string(),
         _ => msg,
     };
     let msg: String = msg.split_whitespace().collect::<Vec<_>>().join(" ");
